@@ -34,21 +34,32 @@ Fixpoint ends_visible (toks : list vtok) : bool :=
 Definition oval (v : option (list vtok)) : list vtok := match v with Some x => x | None => [] end.
 Definition no_children (n : anode) : bool := match an_children n with [] => true | _ => false end.
 
-(* the node ends with text on the current line: an element (its closing tag), or a text node without children
-   whose last line is not empty *)
-Definition ends_text (n : anode) : bool :=
-  truthy_s (an_name n) || (no_children n && ends_visible (oval (an_value n))).
+Definition last_formatted (c : oconfig) (q : anode) : bool :=
+  match rev (an_children q) with
+  | [] => false
+  | x :: _ => should_format c (Some q) x (length (an_children q) - 1) (an_children q)
+  end.
+Definition no_field (v : list vtok) : bool := match find_field_ix v with None => true | Some _ => false end.
+(* the node ends with text on the current line: an element (its closing tag); a text node without children whose last
+   line is not empty; a text node (text without field) whose last child is not line-broken and ends with text *)
+Fixpoint ends_text (c : oconfig) (n : anode) {struct n} : bool :=
+  truthy_s (an_name n) ||
+  match an_children n with
+  | [] => ends_visible (oval (an_value n))
+  | _ :: _ =>
+      truthy_l (an_value n) && no_field (oval (an_value n)) && negb (last_formatted c n)
+      && (fix lastgo (l : list anode) : bool :=
+            match l with
+            | [] => false
+            | x :: r => match r with [] => ends_text c x | _ :: _ => lastgo r end
+            end) (an_children n)
+  end.
 
 (* the last child of an element: an element, or line-broken itself, or a text that ends on its line *)
 Definition last_ok (c : oconfig) (q : anode) : bool :=
   match rev (an_children q) with
   | [] => true
-  | x :: _ => should_format c (Some q) x (length (an_children q) - 1) (an_children q) || ends_text x
-  end.
-Definition last_formatted (c : oconfig) (q : anode) : bool :=
-  match rev (an_children q) with
-  | [] => false
-  | x :: _ => should_format c (Some q) x (length (an_children q) - 1) (an_children q)
+  | x :: _ => should_format c (Some q) x (length (an_children q) - 1) (an_children q) || ends_text c x
   end.
 (* an element whose text has a field and which has children (push_snippet writes the text around the
    children, without the inner formatting of a multi-line text): the text has no line break and, when the
@@ -118,6 +129,26 @@ Lemma align_node_eq c parent node idx items :
   align_node c parent node idx items =
   align_here c parent node idx items && align_walk c (Some node) (an_children node) O (an_children node).
 Proof. rewrite <- align_go_walk. destruct node; reflexivity. Qed.
+
+Lemma lastgo_rev (f : anode -> bool) : forall l,
+  (fix lastgo (l : list anode) : bool :=
+     match l with
+     | [] => false
+     | x :: r => match r with [] => f x | _ :: _ => lastgo r end
+     end) l = match rev l with x :: _ => f x | [] => false end.
+Proof.
+  induction l as [|x [|y r] IH]; [reflexivity|reflexivity|].
+  rewrite IH. cbn [rev]. destruct (rev r ++ [y]) as [|z w] eqn:Ez; [destruct (rev r); discriminate|]. reflexivity.
+Qed.
+Lemma ends_text_eq c n :
+  ends_text c n =
+  (truthy_s (an_name n) ||
+   match an_children n with
+   | [] => ends_visible (oval (an_value n))
+   | _ :: _ => truthy_l (an_value n) && no_field (oval (an_value n)) && negb (last_formatted c n)
+               && match rev (an_children n) with x :: _ => ends_text c x | [] => false end
+   end).
+Proof. rewrite <- (lastgo_rev (ends_text c)). destruct n as [nm v rp at_ [|x ch] sc]; reflexivity. Qed.
 
 Lemma depth_node_eq c n :
   depth_node c n =
@@ -608,7 +639,7 @@ Definition tailb (parent : option anode) (n : anode) (idx : nat) (items : list a
 Definition Qn (parent : option anode) (n : anode) (idx : nat) (items : list anode) (n' : nat) (p' : option Z) : Prop :=
   if tailb parent n idx items
   then p' = Some (D n' - (if is_snippet_opt parent then 0 else 1))
-  else PO n' p' /\ (ends_text n = true -> p' = None).
+  else PO n' p' /\ (ends_text c n = true -> p' = None).
 
 (* the walk over the children of [node] from a state where [m1] events are read *)
 Definition next_ok (node : anode) (next : fstate -> fstate) (m1 : nat) : Prop :=
@@ -763,7 +794,7 @@ Lemma last_ctx (q : anode) l0 x :
   an_children q = l0 ++ [x] ->
   tailb (Some q) x (length l0) (an_children q) = should_format c (Some q) x (length l0) (an_children q) /\
   last_formatted c q = should_format c (Some q) x (length l0) (an_children q) /\
-  last_ok c q = (should_format c (Some q) x (length l0) (an_children q) || ends_text x).
+  last_ok c q = (should_format c (Some q) x (length l0) (an_children q) || ends_text c x).
 Proof.
   intros El. unfold tailb, tail_newline, last_formatted, last_ok. rewrite El, rev_app_distr. cbn [rev app].
   rewrite app_length. cbn [length]. replace (length l0 + 1 - 1)%nat with (length l0) by lia.
@@ -955,16 +986,14 @@ Lemma LI_el_unnamed node next st m p E0 E1 :
   keeps_lvl next -> (an_children node = [] -> forall s, next s = s) ->
   (truthy_l (an_value node) = true -> next_ok node next m) ->
   exists p', LI (el_unnamed c node next st) (m + length (tree_events c node)) p' /\
-             PO (m + length (tree_events c node)) p' /\ (ends_text node = true -> p' = None).
+             PO (m + length (tree_events c node)) p' /\ (ends_text c node = true -> p' = None).
 Proof.
   intros En Hw Hv HE Hm H Hp HL Hk Hnil Hnext.
   assert (Hgi : get_indent c (Some node) = 0).
   { rewrite get_indent_wf; [cbn [named_opt]; rewrite En; reflexivity|exact Hw]. }
   assert (Hev : tree_events c node = if truthy_l (an_value node) then flat_map (tree_events c) (an_children node) else []).
   { rewrite tree_events_eq. destruct (an_name node) as [[|x nm]|]; try reflexivity. discriminate. }
-  assert (Het : ends_text node = no_children node && ends_visible (oval (an_value node))).
-  { unfold ends_text. rewrite En. reflexivity. }
-  rewrite Hev in HE |- *. rewrite Het. unfold el_unnamed.
+  rewrite Hev in HE |- *. rewrite ends_text_eq, En. cbn [truthy_s orb]. unfold el_unnamed.
   destruct (el_snippet c node next st) as [st'|] eqn:Es.
   - destruct (el_snippet_some_inv node next st st' Es) as [v0 [value [ix [Ev [Ef Hne]]]]].
     rewrite Ev in HE, Hnext |- *. cbn [truthy_l] in *. specialize (Hnext eq_refl).
@@ -978,20 +1007,27 @@ Proof.
     destruct (exists_last Hne) as [l0 [xl El]]. specialize (HQ l0 xl El).
     destruct (Hmore (Qn_last_PO node l0 xl _ pw En Hw HQ)) as [p' [H3 [Hp3 _]]].
     exists p'. split; [exact H3|]. split; [exact Hp3|].
-    unfold no_children. destruct (an_children node); [contradiction|discriminate].
+    destruct (an_children node); [contradiction|]. cbn [oval]. unfold no_field. rewrite Ef, andb_false_r. discriminate.
   - destruct (an_value node) as [[|v0 value]|] eqn:Ev; cbn [truthy_l oval] in *.
-    + exists p. rewrite Nat.add_0_r. repeat split; try assumption. rewrite andb_false_r. discriminate.
+    + exists p. rewrite Nat.add_0_r. repeat split; try assumption. destruct (an_children node); discriminate.
     + specialize (Hnext eq_refl). set (kids := flat_map (tree_events c) (an_children node)) in *.
       destruct (LI_tokens st m p (v0 :: value) H Hp Hv (or_introl HL)) as [p1 [H1 [Hp1 [_ [Hv1 _]]]]].
       destruct (no_children node) eqn:Enc.
       * assert (Ech : an_children node = []) by (unfold no_children in Enc; destruct (an_children node); [reflexivity|discriminate]).
         rewrite (Hnil Ech). assert (Ek : length kids = O) by (unfold kids; rewrite Ech; reflexivity).
-        rewrite Ek, Nat.add_0_r. exists p1. repeat split; assumption.
+        rewrite Ek, Nat.add_0_r. exists p1. rewrite Ech. repeat split; assumption.
       * assert (Hne : an_children node <> []) by (intros e; unfold no_children in Enc; rewrite e in Enc; discriminate).
         destruct (Hnext _ p1 H1 Hp1) as [pw [Hww [_ HQ]]]; [rewrite lvl_push_tokens, Hgi; lia|].
         destruct (exists_last Hne) as [l0 [xl El]]. specialize (HQ l0 xl El).
-        exists pw. split; [exact Hww|]. split; [apply (Qn_last_PO node l0 xl _ pw En Hw HQ)|discriminate].
-    + exists p. rewrite Nat.add_0_r. repeat split; try assumption. rewrite andb_false_r. discriminate.
+        exists pw. split; [exact Hww|]. split; [apply (Qn_last_PO node l0 xl _ pw En Hw HQ)|].
+        destruct (last_ctx node l0 xl El) as [Ht [Hlf _]]. unfold Qn in HQ. rewrite Ht, <- Hlf in HQ.
+        assert (Hm' : forall (A : Type) (u w : A), match an_children node with [] => u | _ :: _ => w end = w)
+          by (intros; destruct (an_children node); [contradiction|reflexivity]).
+        rewrite Hm'. replace (rev (an_children node)) with (xl :: rev l0) by (rewrite El, rev_app_distr; reflexivity).
+        intros Het. apply andb_true_iff in Het. destruct Het as [Het Het2].
+        apply andb_true_iff in Het. destruct Het as [_ Het1]. apply negb_true_iff in Het1. rewrite Het1 in HQ.
+        apply (proj2 HQ Het2).
+    + exists p. rewrite Nat.add_0_r. repeat split; try assumption. destruct (an_children node); discriminate.
 Qed.
 
 (* ---------------------------------------------------------------- element(): own line break, body, closing line break *)
@@ -1044,7 +1080,7 @@ Proof.
     - eexists. split; [apply (LI_newline _ m p); [apply LI_level, H|exact Hp]|]. cbn [units]. apply PO_some. rewrite lvl_map_level. lia.
     - exists p. split; [apply LI_level, H|exact Hp]. }
   destruct H1 as [p1 [H1 Hp1]].
-  assert (Hb : exists p2, LI (el_body c node next st1) m' p2 /\ PO m' p2 /\ (ends_text node = true -> p2 = None)).
+  assert (Hb : exists p2, LI (el_body c node next st1) m' p2 /\ PO m' p2 /\ (ends_text c node = true -> p2 = None)).
   { unfold el_body. destruct (an_name node) as [[|x nm]|] eqn:En.
     - apply (LI_el_unnamed node next st1 m p1 E0 E1); try assumption; try reflexivity.
       + unfold truthy_s. rewrite En. reflexivity.
